@@ -19,6 +19,13 @@ License: http://www.apache.org/licenses/LICENSE-2.0
 // m input bytes that will be "stretched" to the least common multiple of n bits and the bit length of m.
 func Nfold(m []byte, n int) []byte {
 	k := len(m) * 8
+	if k == 0 || n <= 0 {
+		// There is nothing to fold, and the calculation below would divide by zero
+		if n < 0 {
+			n = 0
+		}
+		return make([]byte, n/8)
+	}
 
 	//Get the lowest common multiple of the two bit sizes
 	lcm := lcm(n, k)
